@@ -141,6 +141,38 @@ def components(params):
     return {"violated": bool(bad), "problems": bad[:4]}
 
 
+def labelorder(params):
+    """save -> load -> save reproduces the same file for label groups with arbitrary (large, unordered) label values"""
+    from panoptica.utils.label_group import LabelGroup, LabelMergeGroup
+    from panoptica.utils.segmentation_class import SegmentationClassGroups
+    rng = random.Random(11)
+    bad = []
+    cases = [[199, 239, 68, 280], [3, 1, 2], [1000, 8, 520, 264, 16], [65537, 4097, 129, 33, 9]]
+    cases += [rng.sample(range(1, 5000), rng.randint(2, 9)) for _ in range(60)]
+    with tempfile.TemporaryDirectory() as d:
+        for labels in cases:
+            for cls in (LabelGroup, LabelMergeGroup):
+                p1, p2 = os.path.join(d, "a.yaml"), os.path.join(d, "b.yaml")
+                g = cls(list(labels))
+                g.save_to_config(p1)
+                g2 = cls.load_from_config(p1)
+                g2.save_to_config(p2)
+                if open(p1).read() != open(p2).read():
+                    bad.append(f"{cls.__name__}({labels}): saved as {g.value_labels}, the re-saved loaded object writes {g2.value_labels}")
+                    break
+            if len(bad) >= 2:
+                break
+        if not bad:
+            scg = SegmentationClassGroups({"a": LabelGroup([199, 239, 68, 280]), "b": LabelMergeGroup([1000, 8, 520, 264, 16])})
+            p1, p2 = os.path.join(d, "a.yaml"), os.path.join(d, "b.yaml")
+            scg.save_to_config(p1)
+            SegmentationClassGroups.load_from_config(p1).save_to_config(p2)
+            if open(p1).read() != open(p2).read():
+                bad.append("SegmentationClassGroups with large label sets: re-saving the loaded object gives a different file")
+    wc = "label groups keep list(set(labels)) order, which is not stable under reloading" if bad else None
+    return {"violated": bool(bad), "problems": bad[:3], "witness_class": wc}
+
+
 def byname(params):
     """loading by name returns what is stored under that name NOW, as a fresh object every time (the package's config directory is
     redirected to a temporary directory for this run)"""
@@ -207,6 +239,10 @@ def bounded(params):
         failures.append({"input": "every class with non-default parameters", "problems": cp["problems"][:3], "replay_kind": "c19.components"})
     if sh["violated"]:
         failures.append({"input": "shipped configurations", "problems": sh["problems"][:3], "replay_kind": "c19.shipped"})
+    lo = labelorder({})
+    evals += 1
+    if lo["violated"]:
+        failures.append({"input": "label groups with large unordered labels", "problems": lo["problems"][:3], "witness_class": lo.get("witness_class"), "replay_kind": "c19.labelorder"})
     bn = byname({})
     evals += 1
     if bn["violated"]:
